@@ -365,17 +365,26 @@ class Sim:
             if tag not in ('(empty)', 'GetMetadata', 'Subscribe', 'Renew', 'GetStatus', 'Probe') or (tag, msg.path.count('/')) in seen:
                 continue
             seen.add((tag, msg.path.count('/')))
-            for variant in ('http', 'HTTP', 'foreign-host'):
+            for variant, host_header in [(v, f'{P_IP}:80') for v in ('http', 'HTTP', 'foreign-host')] + \
+                    [('unchanged', hh) for hh in ('localhost:8000', f'{P_ALT}:8000', 'other.example', 'other.example:8080', None)]:
                 data = msg.data
                 for h in hosts:
                     if variant == 'foreign-host':
                         data = data.replace(f'https://{h}'.encode(), b'http://other.example')
-                    else:
+                    elif variant != 'unchanged':
                         data = data.replace(f'https://{h}'.encode(), f'{variant}://{h}'.encode())
-                if data == msg.data:
+                if data == msg.data and variant != 'unchanged':
                     continue
-                headers = world.mk_headers({'Content-type': 'application/soap+xml; charset=utf-8', 'Host': f'{P_IP}:80'})
-                status, reason, body = self.p._msg_converter.do_post(headers, msg.path, (C_IP, 4711), data)
+                # the request may also reach the provider under another name than the one it knows (NAT, alias, localhost)
+                hd = {'Content-type': 'application/soap+xml; charset=utf-8'}
+                if host_header is not None:
+                    hd['Host'] = host_header
+                headers = world.mk_headers(hd)
+                try:
+                    status, reason, body = self.p._msg_converter.do_post(headers, msg.path, (C_IP, 4711), data)
+                except Exception as ex:  # noqa: BLE001
+                    self.echo_problems.append(('request-under-another-host-name-raises', f'{tag} with Host {host_header}: {ex!r}'[:200]))
+                    continue
                 self.echo_count += 1
                 if isinstance(body, str):
                     body = body.encode('utf-8')
@@ -388,15 +397,16 @@ class Sim:
                         continue
                     ln = etree.QName(el).localname
                     texts = []
-                    if ln in ('Address', 'XAddrs') and el.text:
+                    if ln in ('Address', 'XAddrs', 'Location') and el.text:
                         texts += el.text.split()
                     if el.get('location'):
                         texts.append(el.get('location'))
                     for t in texts:
                         m = URL_RE.match(t.encode())
-                        if m and m.group(1).lower() != b'https' and (m.group(2).decode() in hosts or m.group(2) == b'other.example'):
+                        if m and m.group(1).lower() != b'https' and (m.group(2).decode() in hosts
+                                                                     or m.group(2).split(b':')[0] in (b'other.example', b'localhost')):
                             self.echo_problems.append(('provider-advertises-plaintext-address-from-request',
-                                                       f'{ln}={t} in the answer to {tag} spelled with {variant}'))
+                                                       f'{ln}={t} in the answer to {tag} spelled with {variant}, Host {host_header}'))
 
     # -- the oracle
     def judge(self, out):
